@@ -7,13 +7,13 @@ namespace LokiModel.C17
 def structRefs : Cell → List Addr
   | .tab _ _ => []
   | .node _ sc _ kids => (match sc with | some (t, _) => [t] | none => []) ++ kids
-  | .unit _ _ _ t secs mems => t :: (secs ++ mems)
+  | .unit _ _ _ _ t secs mems => t :: (secs ++ mems)
 
 /-- weak references to enclosing scopes / parent tables -/
 def parRefs : Cell → List Addr
   | .tab par _ => par.toList
   | .node _ sc _ _ => (match sc with | some (_, p) => p.toList | none => [])
-  | .unit _ _ par _ _ _ => par.toList
+  | .unit _ _ _ par _ _ _ => par.toList
 
 /-- weak references from symbols to their scopes -/
 def symRefs : Cell → List Addr
@@ -35,7 +35,7 @@ def Good (h : Heap) (t : Nat) (c : Cell) : Prop :=
 def envRefs : Cell → List Addr
   | .tab par _ => par.toList
   | .node _ sc _ _ => match sc with | some (t, p) => t :: p.toList | none => []
-  | .unit _ _ par t _ _ => t :: par.toList
+  | .unit _ _ _ par t _ _ => t :: par.toList
 
 def Inv (h : Heap) : Prop :=
   ∀ (a : Nat) (t : Nat) (c : Cell), h.cells[a]? = some (t, c) →
